@@ -47,3 +47,14 @@ Definition parts_ok (c : bool * list stmt_enc * list obs_enc) : bool :=
   let ps := build_parts ts (map dec_stmt stmts) in
   all2 (part_matches (flat_map p_declares ps)) ps obs.
 Definition check_parts := mismatches parts_ok.
+
+(* ---- scope-analysis tie: the parts built from Scope.analyze (declared / used
+   symbols AND the removability flag computed by the classifier model) equal
+   the parts js_parser.Parse built for the same program ---- *)
+From V Require Import C04.Purity C04.Scope.
+Definition scope_ok (c : bool * list sstmt * list obs_enc) : bool :=
+  let '(ts, stmts, obs) := c in
+  let D := fun x => nmem x (flat_map stmt_names stmts) in
+  let ps := build_parts ts (map (analyze D) stmts) in
+  all2 (part_matches (flat_map p_declares ps)) ps obs.
+Definition check_scope := mismatches scope_ok.
